@@ -7,8 +7,9 @@ Line protocol for the C15 model (one s-expression in, one out):
   (resolve C1 C2 NAME)          -> CLAUSE            (canonical order)
   (checktrace CNF N0 PROOFS)    -> T | F
   (checkproofs CNF PROOFS)      -> T | F             (CNF = the input; learned clauses are rebuilt)
-  (tseitin FORM (FORM ...))     -> CNF               (second argument: the subterm numbering)
-FORM = (atom n) | (not F) | (and F F) | (or F F) | (imp F F) | (iff F F)
+  (tseitin FORM (n ...) (FORM ...)) -> CNF | none   (extra used names; the subterm numbering)
+  (tseitin-unfixed FORM (FORM ...)) -> CNF | none   (naming x1..xn regardless of the formula)
+FORM = (atom n) | tt | ff | (not F) | (and F F) | (or F F) | (imp F F) | (iff F F)
 CNF = (CLAUSE ...), CLAUSE = ((name T|F) ...), ASG = ((name T|F) ...), PROOFS = ((id (i ...)) ...)
 -/
 open Holpy Holpy.C15
@@ -29,6 +30,8 @@ def proofsOf (s : Sexp) : Option (List (Nat × List Nat)) := do
 
 partial def formOf : Sexp → Option Form
   | .list [.atom "atom", n] => do some (.atom (← n.toNat?))
+  | .atom "tt" => some .tt
+  | .atom "ff" => some .ff
   | .list [.atom "not", a] => do some (.not (← formOf a))
   | .list [.atom "and", a, b] => do some (.and (← formOf a) (← formOf b))
   | .list [.atom "or", a, b] => do some (.or (← formOf a) (← formOf b))
@@ -44,6 +47,7 @@ def errTo : Err → String
   | .assertion => "assertion"
   | .index => "index"
   | .outOfFuel => "fuel"
+  | .propFuel => "prop-fuel"
 
 def handle (line : String) : String :=
   match Sexp.parse line with
@@ -72,9 +76,19 @@ def handle (line : String) : String :=
     match cnfOf cnf, proofsOf ps with
     | some c, some p => toString (Sexp.ofBool (checkProofs c p))
     | _, _ => "bad-op"
-  | some (.list [.atom "tseitin", f, order]) =>
+  | some (.list [.atom "tseitin", f, extra, order]) =>
+    match formOf f, natsOf extra, (do (← order.toList?).mapM formOf) with
+    | some f, some e, some o =>
+      match tseitinOrd f e o with
+      | some c => toString (cnfTo c)
+      | none => "none"
+    | _, _, _ => "bad-op"
+  | some (.list [.atom "tseitin-unfixed", f, order]) =>
     match formOf f, (do (← order.toList?).mapM formOf) with
-    | some f, some o => toString (cnfTo (tseitinOrd f o))
+    | some f, some o =>
+      match tseitinUnfixed f o with
+      | some c => toString (cnfTo c)
+      | none => "none"
     | _, _ => "bad-op"
   | _ => "bad-op"
 
